@@ -1237,6 +1237,144 @@ def _walk_own(fn):
         stack.extend(ast.iter_child_nodes(n))
 
 
+def _module_bindings(tree):
+    """top-level names of a module: name -> ('import', key) | ('def', node) | ('const', value node) | ('other',)"""
+    out = {}
+    for st in tree.body:
+        if isinstance(st, ast.Import):
+            for al in st.names:
+                local = al.asname or al.name.split(".")[0]
+                out[local] = ("import", "import:" + (al.name if al.asname else al.name.split(".")[0]))
+        elif isinstance(st, ast.ImportFrom):
+            for al in st.names:
+                out[al.asname or al.name] = ("import", "from:%d:%s:%s" % (st.level, st.module or "", al.name))
+        elif isinstance(st, (ast.FunctionDef, ast.AsyncFunctionDef)):
+            out[st.name] = ("def", st)
+        elif isinstance(st, ast.ClassDef):
+            out[st.name] = ("other",)
+        elif isinstance(st, ast.Assign):
+            for t in st.targets:
+                for x in ast.walk(t):
+                    if isinstance(x, ast.Name):
+                        out[x.id] = ("const", st.value) if len(st.targets) == 1 and isinstance(t, ast.Name) else ("other",)
+        elif isinstance(st, (ast.AnnAssign, ast.AugAssign)):
+            for x in ast.walk(st.target):
+                if isinstance(x, ast.Name):
+                    out[x.id] = ("other",)
+    return out
+
+
+def _global_names(fn):
+    """names a function (and the functions nested in it) reads from module scope"""
+    import symtable
+    try:
+        top = symtable.symtable(ast.unparse(fn), "<helper>", "exec")
+    except (SyntaxError, ValueError):
+        return None
+    out = set()
+    def visit(tab):
+        for sym in tab.get_symbols():
+            if tab.get_type() != "module" and sym.is_global() and sym.is_referenced():
+                out.add(sym.get_name())
+            if tab.get_type() != "module" and sym.is_global() and sym.is_assigned():
+                out.add("<global statement>")
+        for ch in tab.get_children():
+            visit(ch)
+    visit(top)
+    return out
+
+
+def _literal(v):
+    try:
+        ast.literal_eval(v)
+        return True
+    except Exception:
+        return False
+
+
+def import_foreign_helpers(tree, modname, raw_trees):
+    """A helper that was moved to another module of the package is still a helper: a function imported with
+    `from .other import helper` that is not part of the confirmed inventory of `other` is copied into the importing module
+    (together with the unconfirmed functions and literal constants of `other` it uses) and is then inlined like a local one.
+    Only when every module-level name the copy reads means the same thing here: the same import, a confirmed function of
+    `other` imported here under the same name, or something that is copied along."""
+    import builtins as _b
+    known = known_functions()
+    if known.get(modname) is None:
+        return tree, []
+    report = []
+    here = _module_bindings(tree)
+    for st in list(tree.body):
+        if not (isinstance(st, ast.ImportFrom) and st.level == 1 and st.module and st.module in raw_trees and st.module != modname):
+            continue
+        other = st.module
+        if known.get(other) is None:
+            continue
+        there = _module_bindings(raw_trees[other])
+        for al in list(st.names):
+            b = there.get(al.name)
+            if not b or b[0] != "def" or al.name in known[other] or not isinstance(b[1], ast.FunctionDef) or b[1].decorator_list:
+                continue
+            local = al.asname or al.name
+            copies, consts, fine = {local: (al.name, b[1])}, {}, True
+            work = [b[1]]
+            while work and fine:
+                fn = work.pop()
+                names = _global_names(fn)
+                if names is None or "<global statement>" in names:
+                    fine = False
+                    break
+                for g in sorted(names):
+                    if hasattr(_b, g) and g not in there:
+                        if g in here:
+                            fine = False
+                        continue
+                    tb = there.get(g)
+                    if tb is None:
+                        fine = False
+                    elif tb[0] == "import":
+                        key = tb[1]
+                        hb = here.get(g)
+                        fine = fine and hb is not None and hb == tb
+                    elif tb[0] == "def":
+                        if g in known[other]:
+                            # a confirmed function of the other module: must be the same name here
+                            fine = fine and here.get(g) == ("import", "from:1:%s:%s" % (other, g))
+                        elif g == al.name and tb[1] is b[1]:
+                            fine = False          # recursive
+                        elif g in copies:
+                            fine = fine and copies[g][1] is tb[1]
+                        elif g in here or not isinstance(tb[1], ast.FunctionDef) or tb[1].decorator_list:
+                            fine = False
+                        else:
+                            copies[g] = (g, tb[1])
+                            work.append(tb[1])
+                    elif tb[0] == "const" and _literal(tb[1]) and (g not in here or g in consts):
+                        consts[g] = tb[1]
+                    else:
+                        fine = False
+                    if not fine:
+                        break
+            if not fine:
+                report.append("%s.%s (imported helper) analysed as a call: its module-level names do not carry over" % (other, al.name))
+                continue
+            for g, v in consts.items():
+                tree.body.append(ast.Assign(targets=[ast.Name(id=g, ctx=ast.Store())], value=copy.deepcopy(v), lineno=1, col_offset=0))
+                here[g] = ("const", v)
+            for lname, (oname, fn) in copies.items():
+                cp = copy.deepcopy(fn)
+                cp.name = lname
+                tree.body.append(cp)
+                here[lname] = ("def", cp)
+            st.names.remove(al)
+            report.append("%s.%s copied from its module (with %s)" % (other, al.name, ", ".join(sorted(set(copies) - {local}) + sorted(consts)) or "nothing else"))
+        if not st.names:
+            tree.body.remove(st)
+    if report:
+        ast.fix_missing_locations(tree)
+    return tree, report
+
+
 def inline_module(tree, modname):
     n_rec = _namedtuples_to_tuples(tree)
     n_unroll = _unroll_small_loops(tree)
